@@ -22,7 +22,9 @@ def hexVal (c : Char) : Option Nat :=
 def levelDir (j : Nat) : Dir := ["B", "c"] ++ List.replicate j "d"
 
 /-- listing of level j (sorted by name: aaa < d < spokfile < u < zzz) -/
-def levelEntries (k : Nat) (hasChild hasU : Bool) : List Entry :=
+def levelEntries (k : Nat) (hasChild hasU : Bool) (caseVariants : Bool := false) : List Entry :=
+  -- `CS`: regular files whose names differ from `spokfile` in case only (they sort before everything else)
+  (if caseVariants then [⟨"SPOKFILE", false⟩, ⟨"Spokfile", false⟩] else []) ++
   (if k % 2 == 1 then [⟨"aaa", false⟩] else []) ++
   (if hasChild then [⟨"d", true⟩] else []) ++
   (match k / 4 with | 1 => [⟨NAME, false⟩] | 2 => [⟨NAME, true⟩] | _ => []) ++
@@ -31,24 +33,29 @@ def levelEntries (k : Nat) (hasChild hasU : Bool) : List Entry :=
 
 inductive Stop where
   | level (j : Nat) | unrel (j : Nat) | root
+  /-- the directory `B/ext` that a linked level (`LN`) points to: physically the same directory as that level, lexically
+      a directory next to the chain -/
+  | ext
 
 def stopDir : Stop → Dir
   | .level j => levelDir j
   | .unrel j => (levelDir j).dropLast ++ ["u"]
   | .root => []
+  | .ext => ["B", "ext"]
 
-def mkFS (ks : List Nat) (stop : Stop) : FS := fun d =>
+def mkFS (ks : List Nat) (stop : Stop) (cs : Option Nat := none) : FS := fun d =>
   let n := ks.length
   let uAt : Option Nat := match stop with | .unrel j => some j | _ => none   -- `u` is listed in the parent of level j
   if d == [] then [⟨"B", true⟩]
-  else if d == ["B"] then [⟨"c", true⟩] ++ (if uAt == some 0 then [⟨"u", true⟩] else [])
+  else if d == ["B"] then [⟨"c", true⟩] ++ (match stop with | .ext => [⟨"ext", true⟩] | _ => []) ++ (if uAt == some 0 then [⟨"u", true⟩] else [])
   else if d.length ≥ 2 ∧ d == levelDir (d.length - 2) ∧ d.length - 2 < n then
     let j := d.length - 2
-    levelEntries (ks.getD j 0) (j + 1 < n) (uAt == some (j + 1))
+    levelEntries (ks.getD j 0) (j + 1 < n) (uAt == some (j + 1)) (cs == some j)
   else []
 
 def parseStop (s : String) : Option Stop :=
   if s == "ROOT" then some .root
+  else if s == "EXT" then some .ext
   else match s.toList with
     | 'L' :: r => (String.ofList r).toNat?.map .level
     | 'U' :: r => (String.ofList r).toNat?.map .unrel
@@ -82,7 +89,7 @@ def handle (line : String) : String :=
     | "L" :: ks :: "S" :: i :: "T" :: st :: opts =>
       match ks.toList.mapM hexVal, i.toNat?, parseStop st with
       | some ks, some i, some stop =>
-        let fs := mkFS ks stop
+        let fs := mkFS ks stop (optNum opts "CS")
         let start := levelDir i
         let sd := stopDir stop
         match optNum opts "REL" with
